@@ -117,6 +117,161 @@ def run(rep: Any, tier: str) -> None:
     for key, label, model in failures:
         rep.sample({"kernel": "tp_new", "class": key, "obligation": label, "model": model})
         rep.candidate(key, f"{label}: {model}", model, replay_new(key))
+    wrapper_cleanups(rep)
+
+
+WRAP_SOURCE = '''
+def emit(n: int, *args: object, **kw: object) -> int:
+    return n
+def emit_none(n: int, *args: object) -> None:
+    pass
+def emit_obj(n: int, *args: object, **kw: object) -> object:
+    return n
+'''
+
+
+def wrapper_cleanups(rep: Any) -> None:
+    """The Python-callable wrappers emitted for functions with *args / **kwargs: the tuple and the dict
+    built by the argument parser are new references owned by the wrapper and must be released exactly
+    once on every path after a successful parse -- also when an argument has the wrong type and when the
+    native function raises -- and never when parsing failed."""
+    from mypyc.codegen import emitwrapper as EW
+    from mypyc.codegen.emit import Emitter, EmitterContext
+    from mypyc.namegen import NameGenerator
+
+    rep.kernel("mypyc.codegen.emitwrapper", symx.source_hash(EW.__file__))
+    mod = mypycir.build_module_ir(WRAP_SOURCE)
+    stats = {"obligations": 0, "discharged": 0, "solver_s": 0.0}
+    failures: list = []
+    analysed = 0
+    for fname, nobj in (("emit", 3), ("emit_none", 2), ("emit_obj", 3)):
+        fn = [f for f in mod.functions if f.name == fname][0]
+        em = Emitter(EmitterContext(NameGenerator([["__main__"]]), False))
+        EW.generate_wrapper_function(fn, em, "m.py", "__main__")
+        text = "".join(em.fragments)
+        import re as _re
+
+        call = _re.search(r"CPyArg_ParseStackAndKeywords\(([^;]*)\)\)", text)
+        extra = [a.strip() for a in call.group(1).split(",")][4:] if call else []
+        n_owned = len([a for a in extra if a in ("&obj_args", "&obj_kw")])
+        params = ", ".join(f"o{i}" for i in range(len(extra)))
+        order = [i for i, a in enumerate(extra) if a in ("&obj_args", "&obj_kw")] + [i for i, a in enumerate(extra) if a.startswith("&obj_") and a not in ("&obj_args", "&obj_kw")]
+        assigns = ", ".join(f"*(o{i}) = verif_obj({k})" for k, i in enumerate(order))
+        shim = (
+            '#include <Python.h>\n#include "CPy.h"\n#undef Py_DECREF\n#define Py_DECREF(o) verif_decref((PyObject *)(o))\n#undef Py_XDECREF\n#define Py_XDECREF(o) verif_decref((PyObject *)(o))\n'
+            "#undef CPy_DECREF\n#define CPy_DECREF(o) verif_decref((PyObject *)(o))\n#undef CPy_XDECREF\n#define CPy_XDECREF(o) verif_decref((PyObject *)(o))\n"
+            "#undef Py_INCREF\n#define Py_INCREF(o) verif_incref((PyObject *)(o))\n#undef CPy_INCREF\n#define CPy_INCREF(o) verif_incref((PyObject *)(o))\nextern void verif_incref(PyObject *);\n"
+            "extern void verif_decref(PyObject *);\nextern PyObject *verif_obj(int);\nextern int verif_parse_ok(void);\nextern int verif_is_long(PyObject *);\nextern CPyTagged verif_borrow(PyObject *);\n"
+            f"#define CPyArg_ParseStackAndKeywords(a, n, k, p, {params}) ({assigns}, verif_parse_ok())\n"
+            "#undef PyLong_Check\n#define PyLong_Check(o) verif_is_long(o)\n#define CPyTagged_BorrowFromObject(o) verif_borrow(o)\n"
+            "extern PyObject *CPyStatic_globals;\n"
+            "extern CPyTagged CPyDef_emit(CPyTagged, PyObject *, PyObject *);\nextern char CPyDef_emit_none(CPyTagged, PyObject *);\nextern PyObject *CPyDef_emit_obj(CPyTagged, PyObject *, PyObject *);\n" + text
+        )
+        work = scratch("c06w-")
+        try:
+            ir = L.compile_ir(shim, work, opt="-O1")
+        finally:
+            shutil.rmtree(work, ignore_errors=True)
+        funcs = L.parse_module(ir)
+        wname = "CPyPy_" + fname
+        rep.kernel("emitted C:" + wname, L.func_hash(funcs[wname]))
+        st: dict = {"decrefs": [], "objs": {}, "ok": None, "native": None}
+
+        def obj(ex: Any, args: list, pc: Any, res: Any, mem: Any) -> Any:
+            i = z3.simplify(args[0]).as_long()
+            st["objs"].setdefault(i, z3.BitVec(f"parsed_object_{i}", 64))
+            return st["objs"][i]
+
+        def parse_ok(ex: Any, args: list, pc: Any, res: Any, mem: Any) -> Any:
+            st["ok"] = z3.BitVec("parse_ok", 32)
+            return st["ok"]
+
+        def native(width: int):
+            def stub(ex: Any, args: list, pc: Any, res: Any, mem: Any) -> Any:
+                st["native"] = z3.BitVec("native_result", width)
+                return st["native"]
+
+            return stub
+
+        def decref(ex: Any, args: list, pc: Any, res: Any, mem: Any) -> Any:
+            st["decrefs"].append((pc, args[0]))
+            return None
+
+        noop = lambda ex, args, pc, res, mem: None  # noqa: E731
+        stubs = {
+            "verif_obj": obj, "verif_parse_ok": parse_ok, "verif_decref": decref, "verif_is_long": L.uf_stub("verif_is_long", 32), "verif_borrow": L.uf_stub("verif_borrow"),
+            "CPyDef_emit": native(64), "CPyDef_emit_none": native(8), "CPyDef_emit_obj": native(64),
+            "CPy_TypeError": noop, "CPy_AddTraceback": noop, "verif_incref": noop, "CPyTagged_StealAsObject": L.uf_stub("CPyTagged_StealAsObject"), "PyLong_FromSsize_t": L.uf_stub("PyLong_FromSsize_t"), "CPyTagged_IncRef": noop, "__indirect__": L.uf_stub("indirect"),
+        }
+        ex = L.Executor(funcs, stubs, arith="bv")
+        ex.run(wname, [z3.BitVec("self", 64), z3.BitVec("args", 64), z3.BitVec("nargs", 64), z3.BitVec("kwnames", 64)])
+        analysed += 1
+        objs = st["objs"]
+        # the *args tuple is object 0, the **kwargs dict object 1 (the parser fills them first)
+        owned = [objs[i] for i in sorted(objs)][:n_owned]
+        distinct = [a != b for i, a in enumerate(objs.values()) for b in list(objs.values())[i + 1 :]]
+
+        def count(o: Any) -> Any:
+            return z3.Sum(*[z3.If(z3.And(pc, a == o), 1, 0) for pc, a in st["decrefs"]]) if st["decrefs"] else z3.IntVal(0)
+
+        for label, hyps, goal, key in (
+            ("after a successful parse the *args tuple / **kwargs dict are released exactly once on every path (wrong argument type, native error, normal return)", distinct + [st["ok"] != 0], z3.And(*[count(o) == 1 for o in owned]), f"wrapper: the *args / **kwargs objects are leaked or released twice on some path"),
+            ("after a failed parse nothing is released", [st["ok"] == 0], z3.And(*[count(o) == 0 for o in owned]), "wrapper: release after a failed argument parse"),
+        ):
+            sl = z3.Solver()
+            sl.set("timeout", 60000)
+            for h in hyps:
+                sl.add(h)
+            sl.add(z3.Not(goal))
+            t = time.time()
+            r = str(sl.check())
+            stats["solver_s"] += time.time() - t
+            stats["obligations"] += 1
+            if r == "unsat":
+                stats["discharged"] += 1
+            elif r == "sat":
+                m = sl.model()
+                mod_ = {str(d): symx.z3_to_py(m[d]) for d in m.decls() if str(d) in ("parse_ok", "native_result")}
+                failures.append((key + f" ({fname}: returns {fn.ret_type})", label, mod_))
+            else:
+                rep.error("inconclusive: " + label)
+    rep.section("K-glue emitted call wrappers: ownership of the *args / **kwargs objects", wrappers=analysed, obligations=stats["obligations"], discharged=stats["discharged"], solver_s=round(stats["solver_s"], 2))
+    rep.add_counts(obligations=stats["obligations"], discharged=stats["discharged"], queries=stats["obligations"], solver_s=stats["solver_s"], paths=stats["obligations"])
+    rep.twin("K-glue: three call wrappers analysed", analysed == 3)
+    rep.bounds.append("K-glue: wrappers of three functions with *args / **kwargs returning int, None and object; every outcome of parsing, of the argument type test and of the native call")
+    for key, label, model in failures:
+        rep.sample({"kernel": "call wrapper", "class": key, "obligation": label, "model": model})
+        rep.candidate(key, f"{label}: {model}", model, replay_wrapper())
+
+
+def replay_wrapper():
+    def replay(d: str) -> tuple[bool, str]:
+        import os
+        import subprocess
+        import sys
+
+        src = "def emit(n: int, *args: object, **kw: object) -> int:\n    if n < 0:\n        raise ValueError()\n    return n\ndef emit_none(n: int, *args: object) -> None:\n    if n < 0:\n        raise ValueError()\n"
+        with open(os.path.join(d, "native_mod.py"), "w") as f:
+            f.write(src)
+        env = dict(os.environ)
+        env.pop("PYTHONPATH", None)
+        p = subprocess.run([sys.executable, "-m", "mypyc", "native_mod.py"], cwd=d, capture_output=True, text=True, timeout=900, env=env)
+        if p.returncode != 0:
+            return False, "mypyc build failed: " + (p.stdout + p.stderr)[-400:]
+        os.rename(os.path.join(d, "native_mod.py"), os.path.join(d, "native_mod.py.src"))
+        drv = (
+            "import gc, sys, weakref\nimport native_mod as M\n"
+            "class T: pass\nalive = weakref.WeakSet()\n"
+            "for i in range(300):\n    o = T(); alive.add(o)\n    for call in (lambda: M.emit(-1, o, key=o), lambda: M.emit_none(-1, o), lambda: M.emit('x', o), lambda: M.emit(1, o, key=o)):\n        try:\n            call()\n        except (ValueError, TypeError):\n            pass\n    del o\n"
+            "gc.collect()\nprint('tracked objects still alive after 300 rounds of calls:', len(alive))\nsys.exit(1 if len(alive) > 5 else 0)\n"
+        )
+        with open(os.path.join(d, "driver.py"), "w") as f:
+            f.write(drv)
+        r = subprocess.run([sys.executable, "driver.py"], cwd=d, capture_output=True, text=True, timeout=300, env=env)
+        shutil.rmtree(os.path.join(d, "build"), ignore_errors=True)
+        return r.returncode == 1, (r.stdout + r.stderr)[-300:]
+
+    return replay
 
 
 REPLAY = '''
